@@ -700,6 +700,10 @@ func vUFCompute(p *premium.PPM, amtSat uint64) int64 {
 	return int64(zzverif.UFU64("ppm.compute", p.Value(), amtSat))
 }
 
+func vNewPremiumStoreModel(db *bbolt.DB) (*premium.BBoltPremiumStore, error) {
+	return &premium.BBoltPremiumStore{}, nil
+}
+
 func vPremiumGetRate(p *premium.BBoltPremiumStore, peer string, asset premium.AssetType, operation premium.OperationType) (*premium.PremiumRate, error) {
 	r := vCurWorld.rates
 	if peer == "default" {
@@ -728,7 +732,13 @@ func vPremiumSetting(w *vWorld, peer string) *premium.Setting {
 		} else if !vExactPremium {
 			zzverif.Override("(*github.com/elementsproject/peerswap/premium.PPM).Compute", vCheapCompute)
 		}
-		return &premium.Setting{}
+		// built by the real constructor (whatever else it sets up), over the store model
+		zzverif.Override("github.com/elementsproject/peerswap/premium.NewBBoltPremiumStore", vNewPremiumStoreModel)
+		ps, perr := premium.NewSetting(nil)
+		if perr != nil {
+			zzverif.Fail("premium.NewSetting failed over the store model")
+		}
+		return ps
 	}
 	dir, err := os.MkdirTemp("", "zzverif-premium-")
 	if err != nil {
